@@ -117,6 +117,15 @@ func TestC04(t *testing.T) {
 			}
 		}
 	}
+	// interleaved histories: an endpoint that fails now and then, never more than twice in a
+	// row, with successes in between, must still be tried (and serve) when it is the only
+	// reachable candidate - occasional failures do not add up to an open circuit
+	nh := rep.Pick(6, 40)
+	for h := 0; h < nh; h++ {
+		interleavedHistory(run, []string{"olla", "sherpa", "olla"}[h%3], bals[h%len(bals)], id, rand.New(rand.NewSource(seed*77+int64(h))))
+		id++
+	}
+	run.Require("interleaved_histories_judged", int64(nh*2/3))
 	run.Require("asserted_cases_with_ok_candidate", int64(rep.Pick(140, 600)))
 	run.Require("followup_requests_judged", 50)
 	run.Require("circuit_open_cases", 10)
@@ -415,6 +424,49 @@ func circuitOpenHistory(run *rep.Run, bal string, a []string, k int, id int) {
 		}
 		run.Count("circuit_reprobe_cases", 1)
 	}
+}
+
+func interleavedHistory(run *rep.Run, eng, bal string, id int, rng *rand.Rand) {
+	f, err := fw.New(fw.Opt{Engine: eng, Balancer: bal, N: 2})
+	if err != nil {
+		run.Inconclusive("world failed to start: " + err.Error())
+		return
+	}
+	defer f.Close()
+	hc := world.NewClient(false, 10*time.Second)
+	// b1 is out of the candidate set throughout (failing health), so every request reaches b0
+	f.B[1].SetHealth(500, "")
+	f.W.ForceHealth()
+	var trace []string
+	fails, i := 0, 0
+	for fails < 6+rng.Intn(4) {
+		for k := 1 + rng.Intn(2); k > 0; k-- { // one or two failures in a row
+			kind := []string{"garbage", "reset_before_headers", "eof_before_headers"}[rng.Intn(3)]
+			c := f.Run(hc, fmt.Sprintf("ih%df%d", id, i), []fw.Fault{{Kind: kind}, {Kind: "ok"}}, "", nil, nil)
+			i++
+			trace = append(trace, kind)
+			if len(c.Attempts) == 0 {
+				run.Inconclusive("interleaved history: a failing request never reached the endpoint")
+				return
+			}
+			fails++
+			// a connection-level failure takes b0 out until a health check succeeds: let one succeed
+			f.B[0].SetHealth(200, "")
+			f.W.ForceHealth()
+		}
+		for k := 1 + rng.Intn(2); k > 0; k-- {
+			c := f.Run(hc, fmt.Sprintf("ih%ds%d", id, i), []fw.Fault{{Kind: "ok"}, {Kind: "ok"}}, "", nil, nil)
+			i++
+			trace = append(trace, "ok")
+			if !(c.Res.Status >= 200 && c.Res.Status < 300) {
+				run.Violation("C04/interleaved/reachable-endpoint-not-served/"+eng, fmt.Sprintf("after %v (never more than two failures in a row) the only candidate answers again but the request got %d", trace, c.Res.Status),
+					map[string]any{"engine": eng, "balancer": bal, "history": trace, "client": c.Res, "attempts": c.Attempts})
+				return
+			}
+		}
+	}
+	run.Count("interleaved_histories_judged", 1)
+	run.Eval(fmt.Sprintf("interleaved/%s/%s/%d", eng, bal, id))
 }
 
 func engineBreaker(f *fw.FW, k int) shifter {
